@@ -627,3 +627,17 @@ func SortedKeys[V any](m map[string]V) []string {
 	sort.Strings(ks)
 	return ks
 }
+
+// SeededHandlerOrder returns the provider for reader.VerifHandlerOrder (hook H16): the permutation depends only on the seed,
+// the incarnation and the (collection, partition) announced, not on the order in which concurrent announcements ask.
+func SeededHandlerOrder(seed uint64, incarnation int) func(coll, part int64, n int) []int {
+	return func(coll, part int64, n int) []int {
+		rng := NewRng(seed ^ 0x5ca1ab1e ^ uint64(coll)<<20 ^ uint64(part)*0x9E3779B97F4A7C15 ^ uint64(incarnation)<<44)
+		perm := make([]int, n)
+		for i := range perm {
+			perm[i] = i
+		}
+		Shuffle(rng, perm)
+		return perm
+	}
+}
